@@ -87,7 +87,8 @@ Definition affine_forward {F : Type} `{Num F} (base : tensor F) (qtype : qtype) 
   end) ;;
   let bits : Z := (q_bits qtype) in
   tmp2_ <- tf_div base scale ;;
-  tmp3_ <- tf_add (tf_round tmp2_) zeropoint ;;
+  let data : tensor F := (tf_nan_to_num tmp2_) in
+  tmp3_ <- tf_add (tf_round data) zeropoint ;;
   _ <- guard (0 <=? bits) "Unsupported:negpow"%string ;;
   let data : tensor F := (tf_cast SUInt8 (tf_clamp 0 ((2 ^ bits) - 1) tmp3_)) in
   Ok (QBits qtype axis group_size size stride data scale zeropoint).
@@ -95,9 +96,9 @@ Definition affine_forward {F : Type} `{Num F} (base : tensor F) (qtype : qtype) 
 Definition max_optimize {F : Type} `{Num F} (base : tensor F) (bits : Z) (axis : option Z) : res ((tensor F * tensor F)) :=
   let dim : list Z := (if (oz_eqb axis 0) then (zrange2 1 (rank base)) else (zrange2 0 ((rank base) - 1))) in
   tmp1_ <- tf_amin dim base ;;
-  let rmin : tensor F := tmp1_ in
+  let rmin : tensor F := (tf_clamp_max 0 tmp1_) in
   tmp2_ <- tf_amax dim base ;;
-  let rmax : tensor F := tmp2_ in
+  let rmax : tensor F := (tf_clamp_min 0 tmp2_) in
   _ <- guard (0 <=? (bits - 1)) "Unsupported:negpow"%string ;;
   let qmin : Z := (- (2 ^ (bits - 1))) in
   _ <- guard (0 <=? (bits - 1)) "Unsupported:negpow"%string ;;
@@ -105,7 +106,8 @@ Definition max_optimize {F : Type} `{Num F} (base : tensor F) (bits : Z) (axis :
   tmp3_ <- tf_sub rmax rmin ;;
   let scale : tensor F := (tf_div_int tmp3_ (qmax - qmin)) in
   tmp4_ <- tf_div (tf_neg rmin) scale ;;
-  let zeropoint : tensor F := (tf_cast SInt8 (tf_round tmp4_)) in
+  tmp5_ <- tf_where (tf_eq_int scale 0) scale tmp4_ ;;
+  let zeropoint : tensor F := (tf_cast SInt8 (tf_round tmp5_)) in
   Ok (scale, zeropoint).
 
 Definition qbytes_dequantize {F : Type} `{Num F} (t : qbytes F) : res (tensor F) :=
@@ -162,7 +164,7 @@ Definition sym_forward {F : Type} `{Num F} (base : tensor F) (qtype : qtype) (ax
     Ok axis
   )) ;;
   tmp2_ <- tf_div base scale ;;
-  let data : tensor F := tmp2_ in
+  let data : tensor F := (tf_nan_to_num tmp2_) in
   data <- (if (negb (q_isfloat qtype)) then (
     let data : tensor F := (tf_round data) in
     Ok data
